@@ -1,7 +1,7 @@
 import RedisEmu.Dict
 import RedisEmu.Proofs.Rev
 import RedisEmu.Proofs.DictWF
-import RedisEmu.Proofs.GoArith
+import RedisEmu.Proofs.GoArithDict
 import Mathlib.Tactic.SplitIfs
 /-
   C17 — SCAN / HSCAN / SSCAN. Theorems about `RedisEmu.Dict` (tied to `redisDict.go` /
@@ -704,6 +704,13 @@ theorem hashToIndex_of_key (key : Bytes) (k : Nat) (hk : k ≤ 31) :
 theorem hashToIndex_examples :
     Go.hashToIndex 1#64 16#32 4#64 = 8#32 ∧ Go.hashToIndex 0xffffffffffffffff#64 16#32 4#64 = 15#32 ∧
     Go.hashToIndex 0x1234567800000002#64 16#32 4#64 = 4#32 := by decide +kernel
+
+/-- `isPowerOfTwo` as translated: true exactly on the powers of two (the table sizes of the dictionary) -/
+theorem is_power_of_two_as_coded (n : BitVec 32) : Go.isPowerOfTwo n = true ↔ ∃ k, n.toNat = 2 ^ k :=
+  go_isPowerOfTwo n
+
+theorem go_arith_translated_dict :
+    ["isPowerOfTwo", "hashToIndex", "sipRound"].all (Go.translated.contains ·) = true := by decide
 
 /-- the reference vector of SipHash-2-4 … with the zero key and the Go code's tail handling the model
     gives this value for the empty input and for "a" (also checked against `calcSipHash` by the `scan` tool) -/
